@@ -2240,8 +2240,14 @@ class VM:
 
         def repeat(*args):
             count = to_integer(args[0]) if args else 0
-            if count < 0 or count >= 2**53:
+            # A negative or an infinite count is refused whatever the string is
+            # (an infinite one arrives clamped, so the number itself is asked)
+            if count < 0 or (args and to_number(args[0]) == math.inf):
                 raise JSRangeError("Invalid count value")
+            # No copies, and copies of nothing, are the empty string: the size
+            # of the count only matters when there is something to copy
+            if not s or count == 0:
+                return ""
             if len(s) * count > 2**28:
                 raise JSRangeError("Invalid string length")
             return s * count
